@@ -4,6 +4,7 @@ import (
 	"bytes"
 	"crypto/hmac"
 	"crypto/md5"
+	"fmt"
 	"hash"
 	"io"
 
@@ -120,12 +121,15 @@ func (e RC4HMAC) VerifyIntegrity(protocolKey, ct, pt []byte, usage uint32) bool 
 
 // GetChecksumHash returns a keyed checksum hash of the bytes provided.
 func (e RC4HMAC) GetChecksumHash(protocolKey, data []byte, usage uint32) ([]byte, error) {
+	if len(protocolKey) != e.GetKeyByteSize() {
+		return nil, fmt.Errorf("incorrect keysize: expected: %v actual: %v", e.GetKeyByteSize(), len(protocolKey))
+	}
 	return rfc4757.Checksum(protocolKey, usage, data)
 }
 
 // VerifyChecksum compares the checksum of the message bytes is the same as the checksum provided.
 func (e RC4HMAC) VerifyChecksum(protocolKey, data, chksum []byte, usage uint32) bool {
-	checksum, err := rfc4757.Checksum(protocolKey, usage, data)
+	checksum, err := e.GetChecksumHash(protocolKey, data, usage)
 	if err != nil {
 		return false
 	}
